@@ -59,6 +59,8 @@ class Stable(Harness):
                     "width": SymInt(ctx.fresh_int("width", 40, 100))}
         if t in ("empty", "seqUnits", "mixed", "casekeys", "dupgroups"):
             return {"x": SymStr([ctx.fresh_char("w%d" % i, ((10, 10), (32, 32))) for i in range(n)])}
+        if t == "quotedws":
+            return {"x": SymStr([ctx.fresh_char("w%d" % i, ((9, 13), (32, 32))) for i in range(3)])}
         if t == "shaped":
             # a value of a fixed shape: d = every digit, s = + or -, the rest literal
             return {"x": SymStr([ctx.fresh_char("d%d" % i, ((48, 57),)) if ch == "d" else
@@ -87,6 +89,10 @@ class Stable(Harness):
             return 'a = "' + x + '"\nb = 2\nEND\n'
         if t == "unquoted":
             return "a = " + x + "\nb = 2\nEND\n"
+        if t == "quotedws":
+            # every white-space character at three places INSIDE a quoted string (alone between words, two in a row)
+            es = list(x) if isinstance(x, str) else [SymStr((c,)) if not isinstance(c, str) else c for c in x.cs]
+            return 'a = "p' + es[0] + "q" + es[1] + es[2] + 'r"\nb = (1, "s' + es[0] + 't")\nEND\n'
         if t == "shaped":
             return "t = " + x + "\nu = (1, " + x + ")\nEND\n"
         if t == "leap":
@@ -177,6 +183,7 @@ def obligations(tier):
         obs.append(Stable(encoder=e, template="wrapquote", n=2))
         obs.append(Stable(encoder=e, template="casekeys", n=3))
         obs.append(Stable(encoder=e, template="dupgroups", n=5))
+        obs.append(Stable(encoder=e, template="quotedws", n=3))
         for sh in VALUE_SHAPES if not quick else VALUE_SHAPES[:8]:
             obs.append(Stable(encoder=e, template="shaped", n=0, shape=sh))
     return obs
